@@ -12,11 +12,13 @@ from . import thr, tok
 BOUNDS = {"quick": [dict(K=3, obs=1, pre=2, to=1), dict(K=2, obs=2, pre=1, to=1, log=True), dict(K=4, obs=1, pre=1, to=1, log=True),
                     dict(K=3, obs=1, pre=1, to=1, log=True, printer=True), dict(K=3, obs=1, pre=2, to=1, onstart=True, flags=(True, False)),
                     dict(K=4, obs=1, pre=1, to=1, flags=(False, True)),
-                    dict(K=3, obs=1, pre=1, to=1, spw=2), dict(K=3, obs=1, pre=1, to=1, nojoin=True)],
+                    dict(K=3, obs=1, pre=1, to=1, spw=2), dict(K=3, obs=1, pre=1, to=1, nojoin=True),
+                    dict(K=70, obs=1, pre=0, to=1, loud=True)],
           "thorough": [dict(K=6, obs=1, pre=2, to=2), dict(K=3, obs=2, pre=2, to=1, log=True), dict(K=5, obs=1, pre=3, to=1), dict(K=2, obs=3, pre=1, to=0), dict(K=3, obs=3, pre=0, to=1),
                        dict(K=7, obs=1, pre=1, to=1, log=True), dict(K=3, obs=1, pre=2, to=1, log=True, printer=True),
                        dict(K=4, obs=1, pre=2, to=1, onstart=True, flags=(True, False)), dict(K=5, obs=1, pre=1, to=1, flags=(False, True)),
-                       dict(K=4, obs=1, pre=2, to=1, spw=2), dict(K=3, obs=2, pre=1, to=1, spw=2), dict(K=4, obs=1, pre=2, to=1, nojoin=True), dict(K=2, obs=2, pre=1, to=1, nojoin=True)]}
+                       dict(K=4, obs=1, pre=2, to=1, spw=2), dict(K=3, obs=2, pre=1, to=1, spw=2), dict(K=4, obs=1, pre=2, to=1, nojoin=True), dict(K=2, obs=2, pre=1, to=1, nojoin=True),
+                       dict(K=70, obs=2, pre=0, to=1, loud=True), dict(K=100, obs=1, pre=1, to=0, loud=True)]}
 
 
 class RecLogger:
@@ -33,7 +35,7 @@ def sig(regs):
     return [(round(r.meta.start * thr.SR), round(r.meta.end * thr.SR), bytes(r.data)) for r in regs]
 
 
-def audio_and_kw(K, flags, spw):
+def audio_and_kw(K, flags, spw, loud=False):
     """spw=2: two-sample windows and an odd number of samples, i.e. the last window is a partial one"""
     data = thr.tagged_audio(K, spw)
     if spw > 1:
@@ -41,6 +43,9 @@ def audio_and_kw(K, flags, spw):
     skw = dict(thr.SPLIT_KW, drop_trailing_silence=flags[0], strict_min_dur=flags[1], max_dur=0.2 if any(flags) else thr.SPLIT_KW["max_dur"], min_dur=0.2 if any(flags) else thr.SPLIT_KW["min_dur"])
     if spw > 1:
         skw = dict(skw, min_dur=skw["min_dur"] * spw, max_dur=skw["max_dur"] * spw, max_silence=skw["max_silence"] * spw)
+    if loud:
+        # a long, entirely active stream cut into one-window detections: many messages for a slow observer
+        skw = dict(skw, min_dur=0.1, max_dur=0.1, max_silence=0)
     return data, skw
 
 
@@ -58,16 +63,16 @@ def run_main(s, tw, allobs, obs, nojoin):
             all(t.finished for t in s.threads), killed)
 
 
-def harness(L, K, nobs, max_pre, max_to, log=False, printer=False, onstart=False, flags=(False, False), spw=1, nojoin=False):
+def harness(L, K, nobs, max_pre, max_to, log=False, printer=False, onstart=False, flags=(False, False), spw=1, nojoin=False, loud=False):
     W, core, util = L.modules["workers"], L.modules["core"], L.modules["util"]
     Obs = thr.make_observer_class(W)
-    data, skw = audio_and_kw(K, flags, spw)
+    data, skw = audio_and_kw(K, flags, spw, loud)
 
     def path(e):
         s = S.Sched(e, max_timeouts=max_to, max_preempt=max_pre)
         s.yield_on_start = onstart
-        val = thr.window_validator(data, spw)
-        meta = dict(K=K, obs=nobs, pre=max_pre, to=max_to, log=log, printer=printer, onstart=onstart, flags=list(flags), spw=spw, nojoin=nojoin)
+        val = (lambda frame: True) if loud else thr.window_validator(data, spw)
+        meta = dict(K=K, obs=nobs, pre=max_pre, to=max_to, log=log, printer=printer, onstart=onstart, flags=list(flags), spw=spw, nojoin=nojoin, loud=loud)
         e.on_budget = lambda m: mk(m, meta, s)
         outcome = None
         obs = []
@@ -86,7 +91,7 @@ def harness(L, K, nobs, max_pre, max_to, log=False, printer=False, onstart=False
             outcome = ("failed", str(ex))
         finally:
             s.cleanup()
-        want = sig(list(core.split(data, sr=thr.SR, sw=thr.SW, ch=thr.CH, analysis_window=0.1 * spw, validator=thr.window_validator(data, spw), **skw)))
+        want = sig(list(core.split(data, sr=thr.SR, sw=thr.SW, ch=thr.CH, analysis_window=0.1 * spw, validator=(lambda frame: True) if loud else thr.window_validator(data, spw), **skw)))
         fails = judge(outcome, want)
         if printer and not fails:
             exp = ["%d %.3f %.3f" % (i, a / thr.SR, b / thr.SR) for i, (a, b, _) in enumerate(want, 1)]
@@ -126,7 +131,7 @@ def judge(outcome, want):
 
 def mk(m, meta, s):
     c = dict(meta)
-    c["valid"] = thr.bits_from_model(m, meta["K"]) if m is not None else [False] * meta["K"]
+    c["valid"] = [True] * meta["K"] if meta.get("loud") else thr.bits_from_model(m, meta["K"]) if m is not None else [False] * meta["K"]
     c["schedule"] = [list(x) for x in s.log]
     return c
 
@@ -142,8 +147,9 @@ def replay_fn(c):
     K = c["K"]
     fl = c.get("flags") or [False, False]
     spw = c.get("spw", 1)
-    data, skw = audio_and_kw(K, fl, spw)
-    val = thr.concrete_validator(data, c["valid"], spw)
+    loud = bool(c.get("loud"))
+    data, skw = audio_and_kw(K, fl, spw, loud)
+    val = (lambda frame: True) if loud else thr.concrete_validator(data, c["valid"], spw)
     s = S.Sched(None, max_timeouts=c["to"] + 50, max_preempt=10 ** 6)
     s.yield_on_start = bool(c.get("onstart"))
     s.script = [tuple(x) for x in c["schedule"]]
@@ -163,7 +169,7 @@ def replay_fn(c):
         outcome = ("failed", str(ex))
     finally:
         s.cleanup()
-    want = sig(list(core.split(data, sr=thr.SR, sw=thr.SW, ch=thr.CH, analysis_window=0.1 * spw, validator=thr.concrete_validator(data, c["valid"], spw), **skw)))
+    want = sig(list(core.split(data, sr=thr.SR, sw=thr.SW, ch=thr.CH, analysis_window=0.1 * spw, validator=(lambda frame: True) if loud else thr.concrete_validator(data, c["valid"], spw), **skw)))
     fails = judge(outcome, want)
     if c.get("printer") and not fails:
         exp = ["%d %.3f %.3f" % (i, a / thr.SR, b / thr.SR) for i, (a, b, _) in enumerate(want, 1)]
@@ -203,8 +209,8 @@ def run(rep):
     for cf in cfgs:
         hn = "sched[K=%d,obs=%d,pre=%d,to=%d%s%s%s%s%s%s]" % (cf["K"], cf["obs"], cf["pre"], cf["to"], ",logger" if cf.get("log") else "", ",PrintWorker" if cf.get("printer") else "",
                                                             ",start-is-a-scheduling-point" if cf.get("onstart") else "", ",flags=%s" % (cf["flags"],) if cf.get("flags") else "",
-                                                            ",2-sample windows with a partial last one" if cf.get("spw", 1) > 1 else "", ",main thread returns without joining" if cf.get("nojoin") else "")
+                                                            ",2-sample windows with a partial last one" if cf.get("spw", 1) > 1 else "", ",main thread returns without joining" if cf.get("nojoin") else "") + (",every window a detection" if cf.get("loud") else "")
         ex = explore(harness(L, cf["K"], cf["obs"], cf["pre"], cf["to"], cf.get("log", False), cf.get("printer", False), cf.get("onstart", False),
-                             tuple(cf.get("flags", (False, False))), cf.get("spw", 1), cf.get("nojoin", False)), max_decisions=3000, path_wall_s=30)
+                             tuple(cf.get("flags", (False, False))), cf.get("spw", 1), cf.get("nojoin", False), cf.get("loud", False)), max_decisions=3000, path_wall_s=30)
         rep.add_exploration(hn, ex, bounds=cf)
         tok.handle_cex(rep, hn, ex, replay_fn)
